@@ -21,6 +21,10 @@ CLAIMED = {
          "the latest phase shift of its targets, marks targets used and applies the post-phase shift; lemma L-phase-additive lifts single increments to sums of shifts.", "DESIGN.md section 3 C07"),
  "C09": ("proof", "Deductive exceptional postconditions: on every raising path of add_delay / add_pulse / add_target the tracked heap equals the entry heap (exc_safe obligations), "
          "three known findings (multi-step mutators) proved absent outside their witness classes; read-only and replay clauses by the bounded stand-in.", "DESIGN.md section 3 C09"),
+ "C12": ("proof", "Deductive (decision logic): validate_register / validate_layout / validate_layout_filling / _validate_atom_number are proved to accept iff every applicable check holds "
+         "(dimensionality, atom number, trap numbers, filling int(n*f), coordinate checks, layout checks wrapped as documented), in the documented order. The pairwise-distance and radial leaves "
+         "(numpy) are assumed interface contracts; their meaning, the exact culprit lists, the device-aware constructors and device construction are decided by the bounded stand-in with an "
+         "independent oracle at, just inside and just outside each limit.", "DESIGN.md section 3 C12"),
  "C13": ("proof", "Deductive, refusal direction: iff-contracts of _validate_channel (undeclared / EOM-blocked / SLM-waiting) and _validate_add_protocol; the real block_if_measured wrapper "
          "executed around _delay/_target (refused when measured, before any write); retarget refused on non-local channels and inside EOM. Remaining typestate rules are decided by the bounded stand-in.",
          "DESIGN.md section 3 C13"),
